@@ -150,7 +150,6 @@ class ErrDiscipline:
         self.F = F
         self._raises = {}
         self.summary = {}  # fn path -> {"fallible": bool, "raising": bool}
-        self.sites = {}    # fn path -> [site dict]
 
     # ---- who enqueues an error event ------------------------------------------------------
     def is_error_event(self, fn, e, depth=3):
@@ -837,9 +836,9 @@ def run(ctx):
 
     # ------------------------------------------------------------------------------ R08.4
     ctx.rule("R08.4", "DataStore::set_arc replaces a value only through the occupied entry and only when it is not read-only (no other insert); "
-                      "every Expression::execute implementation that writes into a DataArc produced by a sub-expression ... see C09/R09.3 for the "
-                      "read-only side; here: ExpressionAssign writes under !is_readonly of the target; Datamodel::assign implementations pass "
-                      "(left, right) in order with allow_undefined = false; Assign::execute passes (location, expr)")
+                      "ExpressionAssign writes through the target arc only under !is_readonly() of that arc; Datamodel::assign implementations "
+                      "pass (left, right) in order with allow_undefined = false, and assign_internal builds ExpressionAssign exactly when "
+                      "!allow_undefined; Assign::execute passes (location, expr)")
 
     def r4():
         sa = F.fn("datamodel::DataStore::set_arc")
@@ -890,8 +889,6 @@ def run(ctx):
         for c in an:
             g = hirq.guard_atoms(ai, c)
             ok = any(pol is False and isinstance(a, dict) and local_of(a, NO_T) == pb for a, pol in g)
-            a = c["a"]
-            order = hirq.origin(ai, a[0]).get("destruct") and hirq.origin(ai, a[1]).get("destruct")
             ctx.ob("R08.4", site_key(ai, "ExpressionAssign when !allow_undefined"), ok, line_of(c), "guards %s" % [(describe(x), p) for x, p in g if isinstance(x, dict) and x.get("k")])
         for c in au:
             g = hirq.guard_atoms(ai, c)
